@@ -13,7 +13,7 @@ func init() {
 		"(R1) the gRPC-code→HTTP-status decision table of toHTTPStatus equals the table in the property for every code, non-status errors give 500, the ErrorMapper is consulted first; "+
 		"(R2) every return of every (status, error) handler and rpc wrapper is (200, nil) or (non-200, non-nil error) on all paths, and ServeHTTP rejects wrong methods / unparsable forms before calling the handler and converts (non-200, nil) into 500; "+
 		"(R3) for each endpoint and each cause named in the property (backend error, garbled root, tree too small, surplus or mis-indexed leaves, absent parts, bad proof hashes, undecodable leaf, parse failures) the control-flow edge taken on that cause can only reach returns of the prescribed status class with a non-nil error, and parse failures cannot reach a backend call; "+
-		"(R4) optional parts of backend replies are nil-guarded or read through nil-safe getters before use; (R5) no SCT is recorded on any fault edge of add-chain; (R6) SendHTTPError withholds the error text exactly when masking is on and the status is 500; checkAuditPath rejects wrong-sized hashes. "+
+		"(R4) optional parts of backend replies are nil-guarded or read through nil-safe getters before use; (R5) no SCT is recorded on any fault edge of add-chain; (R6) SendHTTPError withholds the error text exactly when masking is on and the status is 500; checkAuditPath rejects wrong-sized hashes; (R7) a function without a status result that obtains an error from a backend RPC, or from a function on the way to one, hands on that very error value on every return that may execute once it is non-nil, so the gRPC status reaches toHTTPStatus. "+
 		"NOT covered: panics from causes other than absent optional message parts, behaviour of net/http and gRPC, the dynamic values of statuses produced by an injected ErrorMapper.",
 		runC08)
 }
@@ -561,7 +561,146 @@ func c08StatusCarried(r *Run) {
 			}
 		}
 	}
-	r.Floor("functions relaying backend errors", n, 4)
+	// The same statement as a must-property, independent of how the relaying code is cut into functions: a
+	// function without a status result that obtains an error from a backend RPC or from a function on the way to
+	// one (directly or through a module implementation of an interface method) hands on that very error value on
+	// every return that may execute once the error is non-nil.  (An error rebuilt from the text of the backend's
+	// error is caught here even when its construction is not recognised as wrapping above.)
+	hasStatus := func(fn *ssa.Function) bool {
+		res := fn.Signature.Results()
+		for i := 0; i < res.Len(); i++ {
+			if b, ok := res.At(i).Type().Underlying().(*types.Basic); ok && b.Kind() == types.Int {
+				return true
+			}
+		}
+		return false
+	}
+	lastIsErr := func(t types.Type) bool {
+		if tup, ok := t.(*types.Tuple); ok {
+			return tup.Len() > 0 && types.Identical(tup.At(tup.Len()-1).Type(), errT)
+		}
+		return types.Identical(t, errT)
+	}
+	onWay := map[*ssa.Function]bool{} // functions without status result whose error may stem from a backend RPC
+	sources := func(fn *ssa.Function) []*ssa.Call {
+		var out []*ssa.Call
+		eachInstr(fn, func(in ssa.Instruction) {
+			call, ok := in.(*ssa.Call)
+			if !ok || !lastIsErr(call.Type()) {
+				return
+			}
+			switch {
+			case glob("iface(trillian.TrillianLogClient).*", CalleeOf(call)):
+				out = append(out, call)
+			case call.Call.StaticCallee() != nil && onWay[call.Call.StaticCallee()]:
+				out = append(out, call)
+			case call.Call.IsInvoke():
+				for _, f := range e.impls(&call.Call) {
+					if onWay[f] {
+						out = append(out, call)
+						break
+					}
+				}
+			}
+		})
+		return out
+	}
+	for changed := true; changed; {
+		changed = false
+		for _, fn := range r.P.ModFuncs {
+			if !inCtfe(fn) || onWay[fn] || hasStatus(fn) || !lastIsErr(fn.Signature.Results()) {
+				continue
+			}
+			if len(sources(fn)) > 0 {
+				onWay[fn] = true
+				changed = true
+			}
+		}
+	}
+	var carriesVal func(v, ev ssa.Value, depth int) bool
+	carriesVal = func(v, ev ssa.Value, depth int) bool {
+		if v == ev {
+			return true
+		}
+		if ph, ok := v.(*ssa.Phi); ok && depth < 3 {
+			for _, ed := range ph.Edges {
+				if carriesVal(ed, ev, depth+1) {
+					return true
+				}
+			}
+		}
+		return false
+	}
+	nMust, nExported := 0, 0
+	for _, fn := range r.P.ModFuncs {
+		if !onWay[fn] {
+			continue
+		}
+		r.Funcs[FuncName(fn)] = true
+		if fn.Object() != nil && fn.Object().Exported() {
+			nExported++
+		}
+		for _, call := range sources(fn) {
+			nMust++
+			key := "status-carried:" + FuncName(fn) + "@" + CalleeOf(call)
+			var ev ssa.Value = call
+			if tup, ok := call.Type().(*types.Tuple); ok {
+				ev = CallResult(call, tup.Len()-1)
+			}
+			if ev == nil {
+				r.Fail(key, r.Where(call), "the error of "+CalleeOf(call)+" is discarded")
+				continue
+			}
+			tested := ev
+			if !hasNilTest(ev) {
+				for _, ref := range *ev.Referrers() {
+					if ph, ok := ref.(*ssa.Phi); ok && hasNilTest(ph) {
+						tested = ph
+					}
+				}
+			}
+			reach := r.D.Walk(fn, Sigma{"nil?" + r.D.D(tested): "non"}, call.Block(), nil)
+			r.Valuations++
+			ok, detail, nret := true, "", 0
+			for _, ret := range reachableReturns(fn, reach) {
+				nret++
+				if k := len(ret.Results); k == 0 || !carriesVal(ret.Results[k-1], ev, 0) {
+					ok = false
+					detail = fmt.Sprintf("once %s failed, the return at %s hands on %s instead of that error: its gRPC status (429/503/504/4xx) is lost and the request is answered 500", CalleeOf(call), r.Where(ret), r.D.D(ret.Results[len(ret.Results)-1]))
+				}
+			}
+			if ok && nret == 0 {
+				ok, detail = false, "undecided: no return reachable after the call"
+			}
+			if ok {
+				detail = fmt.Sprintf("once %s failed, all %d returns that may execute hand on its error unchanged", CalleeOf(call), nret)
+			}
+			r.Check(key, ok, r.Where(call), detail)
+		}
+	}
+	// instance floors that do not depend on where helper boundaries lie: the exported getters on the way from the
+	// latest-root RPC to the get-sth handler, and (end to end) a handler that maps a relayed error, i.e. the error
+	// result of a relaying function rather than of an RPC it issues itself
+	r.Floor("exported functions relaying backend errors", nExported, 2)
+	nEnd := 0
+	for _, fn := range r.P.ModFuncs {
+		if !inCtfe(fn) {
+			continue
+		}
+		for _, c := range CallsTo(fn, "(*trillian/ctfe.logInfo).toHTTPStatus") {
+			args := CallArgs(c)
+			ex, ok := args[len(args)-1].(*ssa.Extract)
+			if !ok {
+				continue
+			}
+			call, ok := ex.Tuple.(*ssa.Call)
+			if ok && !glob("iface(trillian.TrillianLogClient).*", CalleeOf(call)) && isBackendErr(ex, 0) {
+				nEnd++
+			}
+		}
+	}
+	r.Floor("handlers mapping a relayed backend error with toHTTPStatus", nEnd, 1)
+	r.Check("floor:relaying sites", n >= 1 && nMust >= 1, "-", fmt.Sprintf("%d returns relay a backend error, %d calls hand one on", n, nMust))
 }
 
 // decodedRoot is the origin term of the log root the function decoded: the
